@@ -822,6 +822,39 @@ func c12Wrap() []c12Fail {
 			c.close()
 		}
 	}
+	// a lookup is waiting for neighbour k while so many other neighbours are learned that k's
+	// slot is taken over: the waiting operation must not be forgotten - it is released at once
+	// or at the latest when the retry budget is over
+	for _, fill := range []int{511, 512, 513, 600} {
+		c := c12NewWorld()
+		c.n.S.SetRouteTable([]tcpip.Route{{Destination: "\x0a\x00\x00\x00", Mask: "\xff\x00\x00\x00", NIC: 1}})
+		s := c.n.S
+		wk := &sleep.Waker{}
+		_, ch, err := s.GetLinkAddress(1, k, addrA4, ipv4.ProtocolNumber, wk)
+		c.w.Settle()
+		c.take()
+		if err != tcpip.ErrWouldBlock || ch == nil {
+			fails = append(fails, c12Fail{"wrap-harness", fmt.Sprintf("lookup of an unknown neighbour returned %v", err)})
+			c.close()
+			continue
+		}
+		for i := 0; i < fill; i++ {
+			s.AddLinkAddress(1, other(i), omac(i))
+		}
+		c.w.Settle()
+		for i := 0; i < 8; i++ { // more than the retry budget (3 attempts, 1 s each)
+			if len(vtime.Pending()) == 0 {
+				break
+			}
+			vtime.FireNext()
+			c.w.Settle()
+			c.take()
+		}
+		if !chClosed(ch) {
+			fails = append(fails, c12Fail{"wrap-waiter-abandoned", fmt.Sprintf("a lookup was waiting for a neighbour, then %d other neighbours were learned (the cache has 512 slots) and the retry budget ran out: the waiting lookup was never released (no address, no failure)", fill)})
+		}
+		c.close()
+	}
 	return fails
 }
 
